@@ -10,7 +10,11 @@
 //	reference side: boxo balanced|trickle x raw|protobuf leaves x CIDv0|v1 (v0 only with protobuf
 //	  leaves), W in {2,3}, n in 0..30 | W in {2,3,4}, n in 0..120; chunker size-3.
 //
-// Content bytes are pseudo-random from VERIF_SEED.
+//	builder side, repetitive content (repetitive_test.go): all-zero, periodic with a period of
+//	  1..3 chunks, "A x A y A ..", two identical halves, over the same (W, n) ranges: DAGs that link
+//	  the same block or subtree from several positions. Case ids "builder:W=..,n=..,content=<class>".
+//
+// Content bytes are pseudo-random from VERIF_SEED (main loop: pairwise distinct chunks).
 package c01
 
 import (
@@ -165,6 +169,8 @@ func TestBounded(t *testing.T) {
 			}
 		}
 	}
+
+	repetitive(t, r)
 
 	maxN := vp.Pick(30, 120)
 	for _, layout := range []string{"balanced", "trickle"} {
